@@ -239,3 +239,195 @@ Example C17_witness_requeuer :
       (Inp 1 (Msg 2 3 (Some [(8, 8); (w_rk, w_itoa 41)])) false PubError)
   = (Nacked, [ECall; EPub 7 [Msg 2 3 (Some [(8, 8); (w_rk, w_itoa 42)])] Unsettled; EPubRet false; ESettle false]).
 Proof. reflexivity. Qed.
+
+(** * Round "proofs": redelivery, streams, the relay behind a GoChannel subscription *)
+From WM Require Import Relay.Redelivery Relay.RedeliveryProofs Relay.RedeliveryWitness Relay.ToyCodec Relay.OverGoChannel.
+From WM Require GoChannel.Sub GoChannel.SubProofs.
+
+Section C17_redelivery.
+  Variable dec : N -> option envelope.
+  Variable atoi : N -> option Z.
+  Variable itoa : Z -> N.
+  Variable rk : N.
+
+  (** [redeliver mode c src obj beh]: the source hands [obj] to component [c] again after every
+      Nack, until an Ack; [beh] = (context done?, destination behaviour) per attempt; ANY length.
+      A GoChannel-like source ([FreshCopy]: a fresh message.Copy() of the original per attempt)
+      never sees what the handler wrote into the delivered copy: *)
+  Theorem C17_redelivery_original_untouched : forall (c : comp) (src : N) (obj : msg) (beh : list attempt),
+    snd (redeliver dec atoi itoa rk FreshCopy c src obj beh) = obj.
+  Proof. exact (redeliver_fresh_original_untouched dec atoi itoa rk). Qed.
+
+  (** no attempt before the last one was acked (so: nothing is relayed again after an Ack) *)
+  Theorem C17_redelivery_ack_only_last : forall (md : source_mode) (c : comp) (src : N) (beh : list attempt) (obj : msg),
+    Forall (fun r : settle * list ev => fst r <> Acked)
+           (removelast (fst (redeliver dec atoi itoa rk md c src obj beh))).
+  Proof. exact (redeliver_ack_only_last dec atoi itoa rk). Qed.
+
+  (** over all attempts the destination accepts at most one call and at most one attempt is acked
+      — never double-forwarded, for every component and every kind of source *)
+  Theorem C17_redelivery_accepted_at_most_once : forall (md : source_mode) (c : comp) (src : N) (beh : list attempt) (obj : msg),
+    (length (all_accepted (fst (redeliver dec atoi itoa rk md c src obj beh))) <= 1)%nat
+    /\ (n_acked (fst (redeliver dec atoi itoa rk md c src obj beh)) <= 1)%nat.
+  Proof. exact (redeliver_accepted_at_most_once dec atoi itoa rk). Qed.
+
+  (** GoChannel-like source, relayable message: however often it is nacked and redelivered, either
+      the destination accepted exactly the relayed copy of the ORIGINAL, once, and it was acked; or
+      nothing was accepted and it was never acked (it stays with the source) — Forwarder: a nacked
+      envelope is forwarded again unchanged; Requeuer: failed attempts do not add up *)
+  Theorem C17_redelivery_exactly_once_or_not_acked : forall (c : comp) (src : N) (obj : msg) (beh : list attempt) (t : N) (m : msg),
+    dest dec c src (gochan_copy obj) = Some (t, m) ->
+    let rs := fst (redeliver dec atoi itoa rk FreshCopy c src obj beh) in
+    (all_accepted rs = [(t, [relayed atoi itoa rk c m])] /\ n_acked rs = 1%nat)
+    \/ (all_accepted rs = [] /\ n_acked rs = 0%nat).
+  Proof. exact (redeliver_fresh_spec dec atoi itoa rk). Qed.
+
+  (** Requeuer behind a GoChannel-like source: whatever the destination accepted carries the
+      ORIGINAL's counter raised once, same UUID / payload / other keys, on the original's topic *)
+  Theorem C17_requeuer_redelivery_counter :
+    (forall s z, atoi s = Some z -> in64 z) -> (forall z, in64 z -> atoi (itoa z) = Some z) ->
+    forall (gen : msg -> option N) (delay : Z) (src : N) (obj : msg) (beh : list attempt) (t : N) (ms : list msg),
+    In (t, ms) (all_accepted (fst (redeliver dec atoi itoa rk FreshCopy (CRequeuer gen delay) src obj beh))) ->
+    exists m', ms = [m'] /\ gen (gochan_copy obj) = Some t
+               /\ uuid m' = uuid obj /\ payload m' = payload obj
+               /\ (forall k, k <> rk -> meta_get k (content (mmeta m')) = meta_get k (content (mmeta obj)))
+               /\ counter atoi rk (mmeta m') = incr64 (counter atoi rk (mmeta obj)).
+  Proof. exact (redeliver_requeuer_counter dec atoi itoa rk). Qed.
+
+  (** requeued again and again (any number of rounds, any failures inside each round): after n
+      successful requeues the counter reads the original's plus n — once per successful requeue —
+      as long as that is at most MaxInt64; UUID, payload and every other key as they were *)
+  Theorem C17_requeuer_counter_once_per_requeue :
+    (forall s z, atoi s = Some z -> in64 z) -> (forall z, in64 z -> atoi (itoa z) = Some z) ->
+    forall (gen : msg -> option N) (delay : Z) (src : N) (rounds : list (list attempt)) (obj : msg),
+    let '(o, n) := requeue_rounds dec atoi itoa rk gen delay src obj rounds in
+    uuid o = uuid obj /\ payload o = payload obj
+    /\ (forall k, k <> rk -> meta_get k (content (mmeta o)) = meta_get k (content (mmeta obj)))
+    /\ ((counter atoi rk (mmeta obj) + Z.of_nat n <= max64)%Z ->
+        counter atoi rk (mmeta o) = (counter atoi rk (mmeta obj) + Z.of_nat n)%Z).
+  Proof. exact (requeue_rounds_counter dec atoi itoa rk). Qed.
+
+  (** the model's redelivery history passes the acceptor that judges implementation histories *)
+  Theorem C17_redelivery_model_accepted : forall (c : comp) (src : N) (obj : msg) (beh : list attempt),
+    (forall s z, atoi s = Some z -> in64 z) -> (forall z, in64 z -> atoi (itoa z) = Some z) ->
+    wf_msg obj -> (forall t m, dest dec c src (gochan_copy obj) = Some (t, m) -> wf_msg m) ->
+    redelivery_monitor dec atoi rk c src obj beh
+      (fst (redeliver dec atoi itoa rk FreshCopy c src obj beh))
+      (snd (redeliver dec atoi itoa rk FreshCopy c src obj beh)) = true.
+  Proof. exact (redeliver_monitor_accepted dec atoi itoa rk). Qed.
+
+  (** FanIn / FanOut, a stream of messages from any source topics, each with its own redelivery
+      history (faults at any attempt index): the destination gets exactly the messages that reached
+      an accepting attempt — each once, in stream order, on the target topic, as a copy of the
+      original — nothing else; also per source topic *)
+  Theorem C17_stream_preserves : forall (c : comp) (items : list item),
+    (exists t, c = CFanIn t) \/ c = CFanOut ->
+    stream_accepted dec atoi itoa rk FreshCopy c items
+    = map (fun it => (rtopic_of c (Inp (it_src it) (it_msg it) false PubAccept), [gochan_copy (it_msg it)]))
+          (filter (eventually_accepted dec atoi itoa rk c) items).
+  Proof. exact (stream_passthrough_preserves dec atoi itoa rk). Qed.
+
+  Theorem C17_stream_preserves_per_source : forall (c : comp) (items : list item) (s : N),
+    (exists t, c = CFanIn t) \/ c = CFanOut ->
+    stream_accepted dec atoi itoa rk FreshCopy c (filter (fun it => it_src it =? s) items)
+    = map (fun it => (rtopic_of c (Inp (it_src it) (it_msg it) false PubAccept), [gochan_copy (it_msg it)]))
+          (filter (fun it => (it_src it =? s) && eventually_accepted dec atoi itoa rk c it) items).
+  Proof. exact (stream_passthrough_per_source dec atoi itoa rk). Qed.
+
+  (** *** the relay as the consumer of a GoChannel subscription (Layer A: GoChannel/Sub.v, every
+      buffer size, any number of Senders, every schedule [ls]) *)
+  Variable c : comp.
+  Variable src : N.
+  Variable msg_of : Sub.pubid -> msg.
+  Variable beh : Sub.cid -> attempt.
+
+  (** when a later copy of the same publication exists, every earlier copy was nacked by the relay
+      and the destination accepted nothing of it: no double forwarding through redelivery *)
+  Theorem C17_over_gochannel_at_most_once : forall (cap0 : nat) (fx : bool) (ls : list Sub.label),
+    let s := Sub.srun (Sub.sinit cap0 fx) ls in
+    relay_consumer dec atoi itoa rk c src msg_of beh s ->
+    forall k1 k2 : nat, (k1 < k2)%nat -> (k2 < Sub.next s)%nat ->
+    Sub.c_thr (Sub.copies s k1) = Sub.c_thr (Sub.copies s k2) ->
+    Sub.c_st (Sub.copies s k1) = Nacked
+    /\ accepted_pubs (handling dec atoi itoa rk c src msg_of beh s k1) = [].
+  Proof. exact (at_most_once_over_gochannel dec atoi itoa rk c src msg_of beh). Qed.
+
+  (** an acked copy of a relayable message was handed to the destination, accepted, intact *)
+  Theorem C17_over_gochannel_acked_was_relayed : forall (cap0 : nat) (fx : bool) (ls : list Sub.label),
+    let s := Sub.srun (Sub.sinit cap0 fx) ls in
+    relay_consumer dec atoi itoa rk c src msg_of beh s ->
+    forall k : nat, (k < Sub.next s)%nat -> Sub.c_st (Sub.copies s k) = Acked ->
+    forall (t : N) (m : msg),
+    dest dec c src (gochan_copy (msg_of (Sub.c_pub (Sub.copies s k)))) = Some (t, m) ->
+    accepted_pubs (handling dec atoi itoa rk c src msg_of beh s k) = [(t, [relayed atoi itoa rk c m])].
+  Proof. exact (acked_copy_was_relayed dec atoi itoa rk c src msg_of beh). Qed.
+End C17_redelivery.
+
+(** a copy the relay nacked is offered again by the subscription (unless it is closing): the
+    Sender returns to the loop head and sends a fresh unsettled copy of the same publication *)
+Theorem C17_over_gochannel_offered_again : forall (s : Sub.sstate) (t : tid) (p : Sub.pubid) (k : Sub.cid),
+  SubProofs.SInv s -> Sub.thr s t = Sub.SWait p k -> Sub.c_st (Sub.copies s k) = Nacked ->
+  exists s1, Sub.sstep s (Sub.LSeeNacked t) = Some s1 /\ Sub.thr s1 t = Sub.SHead p
+  /\ (Sub.closedf s1 = false -> Sub.fixed s1 && Sub.closing s1 = false ->
+      exists s2, Sub.sstep s1 (Sub.LStep t) = Some s2 /\ Sub.thr s2 t = Sub.SSend p (Sub.next s1)
+                 /\ Sub.c_pub (Sub.copies s2 (Sub.next s1)) = p
+                 /\ Sub.c_st (Sub.copies s2 (Sub.next s1)) = Unsettled).
+Proof. exact nacked_copy_is_offered_again. Qed.
+
+(** a subscriber that re-emits the SAME object after a Nack makes the requeuer's counter count
+    attempts (41 -> 44 after two failed and one accepted attempt), not requeues (42 from a
+    GoChannel-like source): "raised by exactly one" needs redelivery of the original *)
+Theorem C17_requeuer_same_object_redelivery_refuted :
+  all_accepted (fst (redeliver w_dec w_atoi w_itoa w_rk SameObject w_rq 1 w_41 w_fail_then_ok))
+    = [(7, [Msg 2 3 (Some [(w_rk, w_itoa 44)])])]
+  /\ snd (redeliver w_dec w_atoi w_itoa w_rk SameObject w_rq 1 w_41 w_fail_then_ok)
+    = Msg 2 3 (Some [(w_rk, w_itoa 44)])
+  /\ all_accepted (fst (redeliver w_dec w_atoi w_itoa w_rk FreshCopy w_rq 1 w_41 w_fail_then_ok))
+    = [(7, [Msg 2 3 (Some [(w_rk, w_itoa 42)])])]
+  /\ snd (redeliver w_dec w_atoi w_itoa w_rk FreshCopy w_rq 1 w_41 w_fail_then_ok) = w_41.
+Proof. exact same_object_counts_attempts. Qed.
+
+(** FanOut with n subscribers per topic: over a whole stream (several topics, faults at any
+    attempt index) the subscribers receive n copies of every eventually-accepted message on its
+    own topic, in stream order, and nothing else *)
+Theorem C17_stream_fanout_copies : forall (dec : N -> option envelope) (atoi : N -> option Z) (itoa : Z -> N) (rk : N)
+    (n : nat) (items : list item),
+  fanout_stream_copies dec atoi itoa rk n items
+  = flat_map (fun it => repeat (it_src it, gochan_copy (it_msg it)) n)
+             (filter (eventually_accepted dec atoi itoa rk CFanOut) items).
+Proof. exact fanout_stream_copies_spec. Qed.
+
+Print Assumptions C17_redelivery_original_untouched.
+Print Assumptions C17_redelivery_ack_only_last.
+Print Assumptions C17_redelivery_accepted_at_most_once.
+Print Assumptions C17_redelivery_exactly_once_or_not_acked.
+Print Assumptions C17_requeuer_redelivery_counter.
+Print Assumptions C17_requeuer_counter_once_per_requeue.
+Print Assumptions C17_redelivery_model_accepted.
+Print Assumptions C17_stream_preserves.
+Print Assumptions C17_stream_preserves_per_source.
+Print Assumptions C17_over_gochannel_at_most_once.
+Print Assumptions C17_over_gochannel_acked_was_relayed.
+Print Assumptions C17_over_gochannel_offered_again.
+Print Assumptions C17_requeuer_same_object_redelivery_refuted.
+Print Assumptions C17_stream_fanout_copies.
+
+(** the GLOBAL codec law (for every envelope) is satisfiable, also with a sanitiser that alters a
+    string — so the hypotheses of C17_forwarder_non_utf8_refuted hold together somewhere *)
+Example C17_codec_global_law_satisfiable :
+  (forall s, w_san78 s = 0 <-> s = 0) /\ w_san78 7 <> 7
+  /\ (forall e, codec_ok_on toy_enc (toy_dec_san w_san78) w_san78 e)
+  /\ (forall e, toy_dec (toy_enc e) = Some e).
+Proof. exact (conj w_san78_zero (conj w_san78_alters (conj (toy_codec_global w_san78) toy_dec_enc))). Qed.
+Example C17_non_utf8_refutation_instance :
+  exists t m p, wrap toy_enc t m = Some p
+                /\ forall em, payload em = p -> unwrap (toy_dec_san w_san78) em <> Some (t, m).
+Proof.
+  exact (C17_forwarder_non_utf8_refuted (toy_dec_san w_san78) toy_enc w_san78 w_san78_zero 7 w_san78_alters (toy_codec_global w_san78)).
+Qed.
+(** three rounds, the second never accepted: two successful requeues, 41 -> 43 *)
+Example C17_witness_rounds :
+  requeue_rounds w_dec w_atoi w_itoa w_rk (fun _ => Some 7) 0 1 w_41
+    [w_fail_then_ok; [(false, PubError); (false, PubError)]; [(false, PubAccept)]]
+  = (Msg 2 3 (Some [(w_rk, w_itoa 43)]), 2%nat).
+Proof. exact rounds_witness. Qed.
